@@ -163,6 +163,7 @@ def gen(t, tier):
     # a cache on top of another cache with a different tile size (same SRS and resolutions): the outer cache cuts its (meta)
     # tiles out of the merged tiles of the inner one; tiles are only ever created, never rewritten, in these cases
     sc['cascade'] = backend == 'file' and not sc['two_sources'] and not sc['err404'] and bool(t.chance(0.15))
+    sc['watermark'] = not sc['cascade'] and bool(t.chance(0.15))
     if sc['cascade']:
         sc['refresh'] = None
         sc['ocean'] = False
@@ -340,6 +341,9 @@ def _run(sc, tape):
                                'res': [U.level_res(z_) for z_ in range(conf['grids']['g']['num_levels'])]}
         conf['caches']['c1']['sources'] = ['c0']
         conf['caches']['c1']['meta_buffer'] = sc.get('meta_buffer', 0)
+    if sc.get('watermark'):
+        # a pre-store filter that replaces the tile's image object (an invisible watermark: one blank, fully transparent)
+        conf['caches']['c1']['watermark'] = {'text': ' ', 'opacity': 0}
     if sc.get('err404'):
         # a second error mapping with the same fill colour that IS to be cached (a 404 of the upstream = "no data here")
         conf['sources']['src']['on_error'] = {404: {'response': sc['fill'], 'cache': True},
